@@ -129,7 +129,7 @@ var (
 func traceCapacity(c *Ctx) int {
 	traceCapOnce.Do(func() {
 		if ans, err := c.Drv.Call(map[string]interface{}{"op": "trace", "tasks": []interface{}{}, "acts": []interface{}{}}); err == nil {
-			if f, ok := ans["cap"].(float64); ok && f >= 1 {
+			if f := numOf(ans["cap"]); f >= 1 {
 				traceCapVal = int(f)
 			}
 		}
